@@ -1,4 +1,4 @@
-(* C26/Gen.v — regenerated from src/cffi/api.py FFI.init_once.  Do not edit: rewritten by tools/props/c26.py regen() on every run. *)
+(* C26/Gen.v — regenerated from src/cffi/api.py FFI.init_once, FFI.__init__, lock.py and src/c/ffi_obj.c ffi_init_once.  Do not edit: rewritten by tools/props/c26.py regen() on every run. *)
 From Coq Require Import List.
 Import ListNotations.
 From Cffi Require Import C26.Model.
@@ -23,27 +23,31 @@ Definition py_prog : prog := [
   (* 16 *) IRaise KeyErr   (* (propagate) *)
 ].
 
+(* the step program of src/c/ffi_obj.c ffi_init_once, from its ordered call sites (c26.py c_extract);
+   regenerated from src/c/ffi_obj.c:989-1085 *)
 Definition c_prog_gen : prog := [
-  (*  0 *) IRead 2 1;
-  (*  1 *) ISetDefault 2;
-  (*  2 *) IIfDone 3 4;
-  (*  3 *) IRetX;
-  (*  4 *) IAcquire 5;
-  (*  5 *) IRead 6 9;
-  (*  6 *) IIfDone 7 9;
-  (*  7 *) IRelease 8;
-  (*  8 *) IRetX;
-  (*  9 *) ICallF 10 13;
-  (* 10 *) IStore 11;
-  (* 11 *) IRelease 12;
-  (* 12 *) IRetResult;
-  (* 13 *) IRelease 14;
-  (* 14 *) IRaise FExn
+  (*  0 *) IRead 2 1;   (* 1013 PyDict_GetItemRef(cache, tag, &tup); tup == NULL -> 1 *)
+  (*  1 *) ISetDefault 2;   (* 1017-1034 new lock, tup = cache.setdefault(tag, (False, lock)) *)
+  (*  2 *) IIfDone 3 4;   (* 1043 if (PyTuple_GET_ITEM(tup, 0) == Py_True) *)
+  (*  3 *) IRetX;   (* 1046 return res  (= tup[1], line 1040) *)
+  (*  4 *) IAcquire 5;   (* 1059-1061 Py_BEGIN_ALLOW_THREADS PyThread_acquire_lock(lock, WAIT_LOCK) *)
+  (*  5 *) IRead 6 9;   (* 1063 x = PyDict_GetItem(cache, tag); x == NULL -> else branch *)
+  (*  6 *) IIfDone 7 9;   (* 1064 x != NULL && PyTuple_GET_ITEM(x, 0) == Py_True *)
+  (*  7 *) IRelease 8;   (* 1082 PyThread_release_lock(lock) on the path res = x[1] (line 1067) *)
+  (*  8 *) IRetX;   (* 1084 return res *)
+  (*  9 *) ICallF 10 13;   (* 1071 res = PyObject_CallFunction(func, "") *)
+  (* 10 *) IStore 11;   (* 1073-1074 PyDict_SetItem(cache, tag, (True, res)) under if (res != NULL) *)
+  (* 11 *) IRelease 12;   (* 1082 PyThread_release_lock(lock) *)
+  (* 12 *) IRetResult;   (* 1084 return res *)
+  (* 13 *) IRelease 14;   (* 1082 PyThread_release_lock(lock) with res == NULL *)
+  (* 14 *) IRaise FExn   (* 1084 return NULL (res) *)
 ].
 
-Definition gen_py_cache_init_empty : bool := true.
-Definition gen_py_cache_assigned_once : bool := true.
-Definition gen_py_lock_is_thread_lock : bool := true.
-Definition gen_c_cache_init_empty : bool := true.
-Definition gen_c_lock_is_thread_lock : bool := true.
-Definition gen_c_no_return_while_locked : bool := true.
+(* facts about the constructors and the locks; false = the source no longer has the expected shape
+   (the reason is in the comment): C26/Proofs3.v impl_init_is_init / c_prog_gen_ok need them all true *)
+Definition gen_py_cache_init_empty : bool := true.   (* api.py:70 `self._init_once_cache = {}` *)
+Definition gen_py_cache_assigned_once : bool := true.   (* no other binding/use of _init_once_cache in src/cffi/*.py *)
+Definition gen_py_lock_is_thread_lock : bool := true.   (* api.py `from .lock import allocate_lock`, never rebound; lock.py takes it from _thread *)
+Definition gen_c_cache_init_empty : bool := true.   (* ffi_obj.c: init_once_cache is NULL in ffi_internal_new, then PyDict_New() on first use, nothing else touches it *)
+Definition gen_c_lock_is_thread_lock : bool := true.   (* ffi_obj.c:1017 lock = PyThread_allocate_lock() (new locks are unlocked), stored in the (False, capsule) tuple *)
+Definition gen_c_no_return_while_locked : bool := true.   (* ffi_obj.c:1060-1082 no `return` between PyThread_acquire_lock and PyThread_release_lock *)
